@@ -28,9 +28,11 @@ Cards2 == {BaseCard \o x \o y : x \in Opt2("N1"), y \in Opt2("N2")}
 CardA == BaseCard \o <<[n |-> "N1", v |-> <<"a">>], [n |-> "N2", v |-> <<"b">>]>>
 CardB == BaseCard \o <<[n |-> "N1", v |-> <<"b">>]>>
 CardC == BaseCard \o <<[n |-> "N1", v |-> <<"a", "b">>], [n |-> "N3", v |-> <<"a">>]>>
-Kinds == {"A", "B", "C"}
-KindCard(k) == IF k = "A" THEN CardA ELSE IF k = "B" THEN CardB ELSE CardC
-Lists == UNION {[1..n -> Kinds] : n \in 0..4}
+\* a property that occurs twice (two fields of the same name): projection keeps every one of them
+CardD == BaseCard \o <<[n |-> "N1", v |-> <<"a">>], [n |-> "N1", v |-> <<"b">>], [n |-> "N2", v |-> <<"b">>]>>
+Kinds == {"A", "B", "C", "D"}
+KindCard(k) == IF k = "A" THEN CardA ELSE IF k = "B" THEN CardB ELSE IF k = "C" THEN CardC ELSE CardD
+Lists == UNION {[1..n -> Kinds] : n \in 0..3} \cup [1..4 -> {"A", "B", "C"}]
 FQ == {[test |-> "anyof", filters |-> <<[name |-> "N1", test |-> "", isnd |-> FALSE, tms |-> <<[text |-> <<"a">>, neg |-> FALSE, mt |-> ""]>>]>>],
        [test |-> "allof", filters |-> <<[name |-> "N1", test |-> "allof", isnd |-> FALSE, tms |-> <<[text |-> <<"b">>, neg |-> FALSE, mt |-> "ends-with"]>>],
                                         [name |-> "N2", test |-> "", isnd |-> TRUE, tms |-> << >>]>>],
@@ -69,7 +71,7 @@ ASSUME ndJsonSerialize(Out \o "/cards1.ndjson", SetToSeq(Cards1))
 ASSUME ndJsonSerialize(Out \o "/q2.ndjson", SetToSeq(Q2))
 ASSUME ndJsonSerialize(Out \o "/cards2.ndjson", SetToSeq(Cards2))
 ASSUME ndJsonSerialize(Out \o "/fcases.ndjson", SetToSeq(FCases))
-ASSUME ndJsonSerialize(Out \o "/kinds.ndjson", <<[k |-> "A", card |-> CardA], [k |-> "B", card |-> CardB], [k |-> "C", card |-> CardC]>>)
+ASSUME ndJsonSerialize(Out \o "/kinds.ndjson", <<[k |-> "A", card |-> CardA], [k |-> "B", card |-> CardB], [k |-> "C", card |-> CardC], [k |-> "D", card |-> CardD]>>)
 ASSUME IF "VALOUT" \in DOMAIN IOEnv THEN ndJsonSerialize(IOEnv.VALOUT, SetToSeq(ValCals)) ELSE TRUE
 ASSUME PrintT(<<"COUNTS", Cardinality(Q1), Cardinality(Cards1), Cardinality(Q2), Cardinality(Cards2), Cardinality(FCases), Cardinality(ValCals)>>)
 VARIABLE x
